@@ -115,7 +115,10 @@ def check_polygon(plane, poly, t1, t2, size, cls, entry, ctx, add):
         return 0.0
     crosses = [float(np.cross(poly[(i + 1) % m] - poly[i], poly[(i + 2) % m] - poly[(i + 1) % m]) @ n) for i in range(m)]
     emax = max(float(np.linalg.norm(poly[(i + 1) % m] - poly[i])) for i in range(m))
-    if min(crosses) < -1e-9 * emax * emax and max(crosses) > 1e-9 * emax * emax:
+    # a vertex may be misplaced by the property's own 1e-9*size; that changes a cross product of two edges by up to ~2*emax*1e-9*size
+    # (for sliver polygons of negligible extent a threshold relative to emax^2 alone would judge rounding noise)
+    tol_c = 1e-9 * emax * emax + 4e-9 * emax * size
+    if min(crosses) < -tol_c and max(crosses) > tol_c:
         add(_viol(entry, "polygon_not_convex", cls, dict(ctx, crosses=crosses, polygon=poly)))
     area = 0.5 * abs(sum(float(np.cross(poly[i] - poly[0], poly[i + 1] - poly[0]) @ n) for i in range(1, m - 1)))
     return area
